@@ -193,7 +193,7 @@ def parseSrc (t : String) (n : Nat) : Option Src :=
     | _ => none
 
 /-- `alias <what> <self|v<off>> <T> [pos]`: the call `what(s, obj)` on a fresh `s = new(String, $S(T))` where `obj` is `s` itself or
-    `$S(c_str(s) + off)`; `print` is `print_to(s, pos, "%s", obj)`.  The allocator of the harness (AddressSanitizer) always moves. -/
+    `$S(c_str(s) + off)`; `print` is `print_to(s, pos, "%s", obj)`, `show` is `show_to(s, s, pos)`.  The allocator of the harness (AddressSanitizer) always moves. -/
 def aliasOp (w : World) (rest : List String) : IO World := do
   match rest with
   | what :: st :: t :: more =>
@@ -201,12 +201,13 @@ def aliasOp (w : World) (rest : List String) : IO World := do
     if x.length > 512 then bad; return w
     let some src := parseSrc st x.length | do bad; return w
     let s := (new P J (some x)).st
-    let mutating := what = "assign" || what = "concat" || what = "append" || what = "print"
+    let mutating := what = "assign" || what = "concat" || what = "append" || what = "print" || what = "show"
+    if what = "show" && st != "self" then bad; return w
     -- the aliased mutators on an empty text copy one NUL onto itself: undefined only on paper, not run
     if mutating && x.isEmpty then bad; return w
     let posOk : Option Nat := match what, more with
-      | "print", [pt] => (num pt).bind fun p => if p ≤ x.length && pt.length ≤ 8 then some p else none
-      | "print", _ => none
+      | "print", [pt] | "show", [pt] => (num pt).bind fun p => if p ≤ x.length && pt.length ≤ 8 then some p else none
+      | "print", _ | "show", _ => none
       | _, [] => some 0
       | _, _ => none
     let some pos := posOk | do bad; return w
@@ -216,6 +217,7 @@ def aliasOp (w : World) (rest : List String) : IO World := do
       | "append" => some (stepA P J true s (.append src))
       | "print" => some (stepA P J true s (.formatS pos src))
       | "rem" => some (stepA P J true s (.rem src))
+      | "show" => showSelf P J (fun _ => true) (2 * x.length + 8) s pos      -- `none` (still walking) cannot happen with a moving allocator
       | _ => none
     match what, res with
     | _, some r =>
@@ -224,7 +226,7 @@ def aliasOp (w : World) (rest : List String) : IO World := do
         IO.println s!"O alias {what} {st} ub"
         IO.println s!"R alias {what} {st} model=ub:{ubStr why}"
       | o =>
-        let oc := match o with | .ok n => if what = "print" then s!"ret={n}" else "ok" | o => outcomeStr o
+        let oc := match o with | .ok n => if what = "print" || what = "show" then s!"ret={n}" else "ok" | o => outcomeStr o
         IO.println s!"O alias {what} {st} {oc} len={r.st.abs.length} cap={r.st.cap} s={preview r.st.abs} fnv={hex64 (fnv64 r.st.buf)}"
       return { w with nMut := w.nMut + 1 }
     | "mem", none => IO.println s!"O alias mem {st} {if mem s (src.read s) then 1 else 0}"; return w
